@@ -15,6 +15,19 @@ static size_t count_set(const unsigned char* b, size_t n, int* preserved) {
   cbor_decref(&s);
   return c;
 }
+/* attach to an item that already held a (valid, non-empty) text: the count must describe the new bytes only */
+static size_t count_reattach(const unsigned char* b, size_t n, int* preserved) {
+  cbor_item_t* s = cbor_build_string("h\xc3\xa9llo w\xc3\xb6rld");
+  unsigned char* old = cbor_string_handle(s);
+  unsigned char* h = va_malloc(n);
+  memcpy(h, b, n);
+  cbor_string_set_handle(s, h, n);
+  va_free(old); /* set_handle does not release the handle it replaces: the client does */
+  size_t c = cbor_string_codepoint_count(s);
+  if (cbor_string_length(s) != n || memcmp(cbor_string_handle(s), b, n)) *preserved = 0;
+  cbor_decref(&s);
+  return c;
+}
 static size_t count_build(const unsigned char* b, size_t n, int* preserved) {
   cbor_item_t* s = cbor_build_stringn((const char*)b, n);
   size_t c = cbor_string_codepoint_count(s);
@@ -44,6 +57,7 @@ static void class_seq(const int* cls, int k, int full_paths) {
   for (int i = 0; i < k; i++) { rep[i] = (unsigned char)clo[cls[i]]; rep2[i] = (unsigned char)chi[cls[i]]; }
   int preserved = 1, loaded = 1, uniform = 1;
   size_t c0 = count_set(rep, k, &preserved), cb = count_build(rep, k, &preserved), cl = count_load(rep, k, &preserved, &loaded);
+  size_t cr = count_reattach(rep, k, &preserved);
   unsigned long total = 1;
   int size[4];
   for (int i = 0; i < k; i++) { size[i] = chi[cls[i]] - clo[cls[i]] + 1; total *= size[i]; }
@@ -64,6 +78,7 @@ static void class_seq(const int* cls, int k, int full_paths) {
   vh_kint("count", (long long)c0);
   vh_kint("count_b", (long long)cb);
   vh_kint("count_l", (long long)cl);
+  vh_kint("count_r", (long long)cr);
   vh_kbool("uniform", uniform);
   vh_kbool("preserved", preserved);
   vh_kbool("loaded", loaded);
@@ -89,11 +104,13 @@ static uint32_t rand_scalar(void) {
 static void txt_line(const unsigned char* b, size_t n) {
   int preserved = 1, loaded = 1;
   size_t a = count_set(b, n, &preserved), c = count_build(b, n, &preserved), d = count_load(b, n, &preserved, &loaded);
+  size_t e = count_reattach(b, n, &preserved);
   fputs("{\"e\":\"txt\"", vh_out);
   vh_kbytes("b", b, n);
   vh_kint("cp_set", (long long)a);
   vh_kint("cp_build", (long long)c);
   vh_kint("cp_load", (long long)d);
+  vh_kint("cp_reattach", (long long)e);
   vh_kbool("loaded", loaded);
   vh_kbool("same", preserved);
   fputs("}\n", vh_out);
@@ -127,6 +144,24 @@ int main(int argc, char** argv) {
   } else {
     long N = atol(argv[2]);
     static unsigned char b[600], m[600];
+    { /* a multi-byte sequence interrupted by a run of ASCII (0..17 bytes) at every alignment 0..7, with its full tail, a short tail, or none */
+      static const unsigned char leads[][4] = {{0xc2, 0xa9, 0, 0}, {0xdf, 0xbf, 0, 0}, {0xe0, 0xa0, 0x80, 0}, {0xe2, 0x82, 0xac, 0}, {0xed, 0x9f, 0xbf, 0}, {0xef, 0xbf, 0xbd, 0},
+                                                {0xf0, 0x9f, 0x98, 0x80}, {0xf1, 0x80, 0x80, 0x80}, {0xf4, 0x8f, 0xbf, 0xbf}};
+      static const int lens[] = {2, 2, 3, 3, 3, 3, 4, 4, 4};
+      for (int li = 0; li < 9; li++)
+        for (int pre = 0; pre < 8; pre++)
+          for (int runl = 0; runl <= 17; runl++)
+            for (int split = 1; split < lens[li]; split++)       /* how many bytes of the sequence come before the run */
+              for (int tail = 0; tail <= lens[li] - split; tail++) { /* how many of the remaining bytes come after it */
+                size_t n = 0;
+                for (int i = 0; i < pre; i++) b[n++] = (unsigned char)('A' + i);
+                for (int i = 0; i < split; i++) b[n++] = leads[li][i];
+                for (int i = 0; i < runl; i++) b[n++] = (unsigned char)('a' + i);
+                for (int i = 0; i < tail; i++) b[n++] = leads[li][split + i];
+                b[n++] = '!';
+                txt_line(b, n);
+              }
+    }
     for (long i = 0; i < N; i++) {
       size_t n = 0;
       int k = 1 + (int)vh_randn(i % 50 == 0 ? 60 : 8);
